@@ -1,7 +1,7 @@
 CONSTANTS
-  MaxEntries = 2
-  MaxDeps = 2
-  MaxLen = 8
+  MaxEntries = 3
+  MaxDeps = 1
+  MaxLen = 6
   Mode = "structured"
 SPECIFICATION Spec
 INVARIANTS Emit
